@@ -17,16 +17,22 @@ from .common import Ctx, fork_map, load_design_module, import_cohdl, InfraError
 from . import lean_io
 
 HEADER = '''import cohdl
-from cohdl import Bit, BitVector, Port, Unsigned, Null, true, false
+from cohdl import Bit, BitVector, Port, Unsigned, Signed, Signal, Null, true, false
 from cohdl import std
 
 class W(cohdl.Entity):
     clk = Port.input(Bit)
-    a = Port.input(Bit); b = Port.input(Bit)
+    a = Port.input(Unsigned[4]); b = Port.input(Unsigned[4])
     sel = Port.input(BitVector[2])
     c = Port.input(BitVector[4])
+    w0 = Port.output(Unsigned[4], default=Null); w1 = Port.output(Unsigned[4], default=Null)
+    w2 = Port.output(Unsigned[4], default=Null); w3 = Port.output(Unsigned[4], default=Null)
+    s0 = Port.output(Unsigned[3], default=Null); s1 = Port.output(Unsigned[3], default=Null)
+    s2 = Port.output(Unsigned[3], default=Null); s3 = Port.output(Unsigned[3], default=Null)
     o0 = Port.output(Bit, default=Null); o1 = Port.output(Bit, default=Null)
     o2 = Port.output(Bit, default=Null); o3 = Port.output(Bit, default=Null)
+    g0 = Port.output(Signed[4], default=Null); g1 = Port.output(Signed[4], default=Null)
+    g2 = Port.output(Signed[4], default=Null); g3 = Port.output(Signed[4], default=Null)
     def architecture(self):
         @std.sequential(std.Clock(self.clk))
         {ASYNC}def proc():
@@ -72,8 +78,11 @@ class Gen:
                 # "computed in several branches" arises from helper functions returning in branches
                 k = self.ntemps
                 self.ntemps += 1
-                if rng.random() < 0.45:
+                r2 = rng.random()
+                if r2 < 0.4:
                     out.append(("defcall", k, self.helper(rng.choice([1, 2, 2, 3]))))
+                elif r2 < 0.55:
+                    out.append(("defsig", k))
                 else:
                     out.append(("def", k))
             elif r < 0.55 and self.ntemps > 0:
@@ -120,6 +129,9 @@ def systematic():
                     else:
                         st = ("for", [(i, arms[i]) for i in range(n)], dflt)
                     progs.append({"body": [st, ("use", 0, 0)], "async": False})
+                    if mask in (1, (1 << arms_total) - 1, 2):
+                        for fi, form in enumerate(USE_FORMS[:5]):
+                            progs.append({"body": [st, ("use", 0, fi, form)], "async": False})
                     # the same nested one level deep, and with a definition before the construct
                     progs.append({"body": [("if", [(3, [st, ("use", 0, 1)])], None)], "async": False})
                     progs.append({"body": [("def", 0), st, ("use", 0, 2)], "async": False})
@@ -135,6 +147,12 @@ def systematic():
                         yield ("if", 1, t, e, tail)
     for sh in shapes(2):
         progs.append({"body": [("defcall", 0, sh), ("use", 0, 0)], "async": False})
+    # a locally constructed Signal (its alias temporary) defined in one branch / all branches, used afterwards or in another branch
+    for form in USE_FORMS[:5]:
+        progs.append({"body": [("if", [(0, [("defsig", 0)])], None), ("use", 0, 1, form)], "async": False})
+        progs.append({"body": [("if", [(0, [("def", 0)])], [("use", 0, 2, form)])], "async": False})
+        progs.append({"body": [("if", [(0, [("def", 0), ("use", 0, 2, form)])], None)], "async": False})
+        progs.append({"body": [("match", [[("def", 0)], []], [("use", 0, 3, form)])], "async": False})
     # states of a coroutine
     for pre in (True, False):
         for post in (True, False):
@@ -180,54 +198,76 @@ def render_helper(sh, ind, n=[0]):
 # ---- source-level oracle: definite assignment
 
 
-def analyse(stmts, D):
-    """returns (ok, D') ; ok = every use is preceded by a definition on every path (within the same state)"""
+_SID = [0]
+_EVER_SIG = set()
+
+
+def _fresh_state():
+    _SID[0] += 1
+    return _SID[0]
+
+
+def analyse(stmts, D=None):
+    """Path-sensitive definite assignment.  Returns (ok, paths); ok = on every path every use is preceded, in the
+    same activation / state, by a definition of that intermediate.
+    A path is (state id, D, M, E): D = intermediates defined on this path in the current state; M = locally
+    constructed Signals whose construction belongs to the current state's code (reads of those go through the
+    compiler's alias temporary, which must be defined on the path); E = Signals constructed on this path in an
+    earlier state (real storage: reading them is an ordinary signal read)."""
+    if D is None or isinstance(D, frozenset):
+        paths = {(0, frozenset(), frozenset(), frozenset())}
+        _EVER_SIG.clear()
+    else:
+        paths = D
     ok = True
     for s in stmts:
         k = s[0]
         if k == "def":
-            D = D | {s[1]}
+            paths = {(sid, d | {s[1]}, m, e) for sid, d, m, e in paths}
+        elif k == "defsig":
+            _EVER_SIG.add(s[1])
+            paths = {(sid, d | {s[1]}, m | {s[1]}, e) for sid, d, m, e in paths}
         elif k == "defcall":
             if returns(s[2]):
-                D = D | {s[1]}
-            # else: the value is computed on only some paths of the helper - a later use is unsafe
+                paths = {(sid, d | {s[1]}, m, e) for sid, d, m, e in paths}
         elif k == "use":
-            if s[1] not in D:
+            for sid, d, m, e in paths:
+                if s[1] in d:
+                    continue
+                if (s[1] in e or s[1] in _EVER_SIG) and s[1] not in m:
+                    # a Signal constructed in an earlier state, or (the tracer binds names in trace order) in a
+                    # branch of another state: real storage, an ordinary signal read - not an intermediate
+                    continue
                 ok = False
         elif k == "await":
-            D = frozenset()
-        elif k in ("if", "for"):
-            outs = []
-            for _, body in s[1]:
-                o, d2 = analyse(body, D)
+            paths = {(_fresh_state(), frozenset(), frozenset(), e | m) for sid, d, m, e in paths}
+        elif k in ("if", "for", "match"):
+            arms = [b for _, b in s[1]] if k != "match" else list(s[1])
+            out = set()
+            for body in arms:
+                o, ps = analyse(body, paths)
                 ok &= o
-                outs.append(d2)
+                out |= ps
             if s[2] is not None:
-                o, d2 = analyse(s[2], D)
+                o, ps = analyse(s[2], paths)
                 ok &= o
-                outs.append(d2)
+                out |= ps
             else:
-                outs.append(D)
-            D = frozenset.intersection(*outs)
-        elif k == "match":
-            outs = []
-            for body in s[1]:
-                o, d2 = analyse(body, D)
-                ok &= o
-                outs.append(d2)
-            if s[2] is not None:
-                o, d2 = analyse(s[2], D)
-                ok &= o
-                outs.append(d2)
-            else:
-                outs.append(D)
-            D = frozenset.intersection(*outs)
-    return ok, D
+                out |= paths
+            # constructions in a sibling branch of the same state are earlier in that state's code
+            by_state = {}
+            for sid, d, m, e in out:
+                by_state.setdefault(sid, set()).update(m)
+            paths = {(sid, d, frozenset(by_state[sid]), e) for sid, d, m, e in out}
+    return ok, paths
 
 
 # ---- rendering
 
 MATCH_PATS = ['"00"', '"01"', '"10"']
+# an intermediate is used whole or through a derived reference (slice, bit, msb, typed view)
+USE_FORMS = ["self.w{j} <<= t{k}", "self.s{j} <<= t{k}[2:0]", "self.o{j} <<= t{k}[1]", "self.o{j} <<= t{k}.msb()",
+             "self.g{j} <<= t{k}.signed", "self.w{j} <<= t{k}", "self.s{j} <<= t{k}.bitvector[3:1].unsigned"]
 
 
 def render(stmts, ind):
@@ -240,7 +280,10 @@ def render(stmts, ind):
         elif k == "defcall":
             out.append(f"{pad}t{s[1]} = helper{s[1]}(self)")
         elif k == "use":
-            out.append(f"{pad}self.o{s[2]} <<= t{s[1]}")
+            form = USE_FORMS[(s[1] * 7 + s[2] * 3 + len(stmts)) % len(USE_FORMS)] if len(s) < 4 else s[3]
+            out.append(pad + form.format(j=s[2] % 4, k=s[1]))
+        elif k == "defsig":
+            out.append(f"{pad}t{s[1]} = Signal[Unsigned[4]](self.a ^ self.b)")
         elif k == "await":
             out.append(f"{pad}await self.c[{s[1]}]")
         elif k == "if":
